@@ -86,7 +86,13 @@ static cbor_item_t* mk_simple(unsigned i) {
     case 0: return chk(cbor_build_bool(false));
     case 1: return chk(cbor_build_bool(true));
     case 2: return chk(cbor_new_null());
-    default: return chk(cbor_new_undef());
+    case 3: return chk(cbor_new_undef());
+    /* unassigned simple values: constructible, serializable (C07, C11, C18 speak of every item), not decodable (outside C03's domain) */
+    case 4: return chk(cbor_build_ctrl(0));
+    case 5: return chk(cbor_new_ctrl());
+    case 6: return chk(cbor_build_ctrl(19));
+    case 7: return chk(cbor_build_ctrl(32));
+    default: return chk(cbor_build_ctrl(255));
   }
 }
 
@@ -103,7 +109,7 @@ static cbor_item_t* gen_leaf(int g) {
     }
   }
   if (g == G_SMALL) {
-    switch (pick(8)) {
+    switch (pick(9)) {
       case 0: return mk_int(false, 0, 1);
       case 1: return mk_int(true, 1, 3);
       case 2: return mk_bytes(1);
@@ -111,7 +117,8 @@ static cbor_item_t* gen_leaf(int g) {
       case 4: return mk_float(0, 2);
       case 5: return mk_indef_string(true, 2);
       case 6: return mk_simple(2);
-      default: return mk_int(false, 3, 3);
+      case 7: return mk_int(false, 3, 3);
+      default: return mk_simple(4);
     }
   }
   switch (pick(8)) {
@@ -122,7 +129,7 @@ static cbor_item_t* gen_leaf(int g) {
     case 4: return mk_indef_string(false, pick(3));
     case 5: return mk_indef_string(true, pick(3));
     case 6: { unsigned w = pick(3); return mk_float(w, pick(7)); }
-    default: return mk_simple(pick(4));
+    default: return mk_simple(pick(9));
   }
 }
 static void push_or_fail(cbor_item_t* arr, cbor_item_t* x) {
